@@ -17,6 +17,9 @@ mod ops;
 mod rec;
 mod run;
 mod spy;
+mod zkir;
+#[allow(dead_code)]
+mod zkir_text;
 
 pub type F = midnight_curves::Fq;
 
